@@ -282,9 +282,36 @@ def run_mixed(cfg, out):
                         w.net.set(c2s=L.Policy(outage=r.random() < 0.5, delay=(0.004, 0.004)), s2c=L.Policy(outage=r.random() < 0.5, delay=(0.004, 0.004)))
                         w.step(r.randint(30, 200))
                         w.net.heal(0.004)
-                # a graceful disconnect travels encrypted too
-                c.udp.disconnect()
-                w.step(30)
+                ending = ["goodbye-unanswered", "server-times-out-while-sending", "graceful", "goodbye-unanswered", "server-times-out-while-sending"][(cfg["shard"] + 2 * case + cfg["seed"]) % 5]
+                run.c.inc("ending_" + ending)
+                if ending == "graceful":
+                    # a graceful disconnect travels encrypted too
+                    c.udp.disconnect()
+                    w.step(30)
+                elif ending == "goodbye-unanswered" and run.open(c):
+                    # the application says goodbye and blocks in waitForDisconnect() while the server is unreachable, or its
+                    # acks are lost: whatever the client repeats meanwhile is sealed under fresh nonces
+                    c.udp.setKeepAliveInterval(r.choice([0.02, 0.05, 0.1]))
+                    w.net.set(c2s=L.Policy(outage=r.random() < 0.5, delay=(0.004, 0.004)), s2c=L.Policy(outage=True))
+                    c.udp.disconnect()
+                    n0 = run.c.get("wire_c2s", 0)
+                    c.wait_for_disconnect()
+                    run.c.inc("datagrams_during_wait_for_disconnect", run.c.get("wire_c2s", 0) - n0)
+                    w.net.heal(0.004)
+                    w.step(10)
+                elif run.open(c):
+                    # the client falls silent; the server application keeps queueing messages on every tick until (and in) the
+                    # tick in which the server times the client out: the last datagrams travel encrypted like all others
+                    w.handler.on["update"] = [lambda dt: [cc.send(L.make_payload(0, w.ticks, 32)) for cc in list(w.ctxt.connections.values())]]
+                    w.ctxt.connection_timeout = r.choice([0.5, 1.0, 1.5])
+                    w.net.set(c2s=L.Policy(outage=True), s2c=L.Policy(delay=(0.004, 0.004)))
+                    c.active = False
+                    n0 = run.c.get("wire_s2c", 0)
+                    w.run_until(lambda ww: c.addr not in ww.ctxt.connections, int(2.5 / w.dt))
+                    w.step(5)
+                    if c.addr not in w.ctxt.connections:
+                        run.c.inc("server_timed_out_client_while_sending")
+                    run.c.inc("datagrams_until_server_timeout", run.c.get("wire_s2c", 0) - n0)
                 total += run.c.get("wire_total", 0)
                 out["distinct"].add(h64("mixed", key))
                 finish_run(run, out, key)
@@ -305,7 +332,8 @@ def finish(tier, seed, results):
     inconclusive = []
     need(m["counters"], ["wire_gcm", "nonces_recorded", "wire_server_hello_clear", "silent_peer_datagrams", "silent_wraps",
                          "mirror_same_time_seq_ack_in_both_directions", "wire_c2s", "wire_s2c", "idlespin_spins",
-                         "client_hello_replayed_after_key_agreement"], inconclusive)
+                         "client_hello_replayed_after_key_agreement", "client_wait_for_disconnect_calls", "datagrams_during_wait_for_disconnect",
+                         "server_timed_out_client_while_sending"], inconclusive)
     cov = {
         "evaluations": m["evaluations"],
         "distinct_nontrivial": m["counters"].get("distinct_nonces", 0),
@@ -314,7 +342,8 @@ def finish(tier, seed, results):
                 "entered into the per-key nonce set. Workloads: silent peer with frozen ack across the 16-bit wrap (pre-positioned "
                 "counters in quick, full wraps in thorough); same-second bursts at the rate cap with frozen ack; mirrored counters in both "
                 "directions for several offsets (the counter mirror_same_time_seq_ack_in_both_directions shows how often only the "
-                "direction magic separated two nonces); mixed sizes/retry modes/idle/outages/disconnect. distinct = distinct (session key, "
+                "direction magic separated two nonces); mixed sizes/retry modes/idle/outages, ending in a graceful disconnect, in a blocking waitForDisconnect() whose notice is never "
+                "acked, or in a server-side timeout while the application keeps sending. distinct = distinct (session key, "
                 "nonce) pairs recorded, i.e. encrypted datagrams that are pairwise different in their nonce",
         "samples": m["samples"],
         "counters": m["counters"],
